@@ -95,6 +95,22 @@ CHECKS = {
         "fault injection with exhaustive crash-point enumeration + proptest crash/restart histories, oracle = 'last completed or in progress' over reference-model snapshots",
         "DESIGN.md §5 C10",
     ),
+    "C11": (
+        "cluster",
+        "exploration",
+        "Differential generated search on a real in-process cluster: a leader driven through its public API by generated histories (writes, rejected requests, imports, registrations, session ends by 3 clients) with 1-2 followers joining over the real TCP sync port at generated positions; at generated quiescent points (marker written on the leader and polled on the follower) every user key's value and CAS version and the connected clients' registrations must be identical on follower and leader; finally all 11 kinds of direct writes to a follower must be answered NotLeader without effect. 600 clusters quick, 25 k thorough.",
+        "Quiescence never relies on waiting, only on the marker travelling the same ordered channel (30 s budget, expiry drops the case). Three listed known findings (D12a/b/c) are tolerated only on exactly the keys they explain (pre-join registrations, keys touched by a session end's grave goods / last will, imported CAS entries); their triggers are excluded from the main generator and counted.",
+        "property-based testing: proptest histories with a leader-vs-follower differential oracle at marker-established quiescent points",
+        "DESIGN.md §5 C11",
+    ),
+    "C12": (
+        "cluster+persist",
+        "exploration",
+        "Generated leader histories with a follower joining at a generated position; at a quiescent point the leader is lost, the follower is stopped gracefully and a new server is started on the follower's data directory - all three configured exactly as the server binary configures itself for the orchestrator's command line (Config::new(Some(Args{..})) with a clean environment). The promoted node's user keys (value, version) must equal the follower's keys with the grave goods buried and last wills set of all clients that were connected to the old leader. 400 promotions quick, 13 k thorough.",
+        "In process (no orchestrator process): the follower's graceful stop stands for the orchestrator's SIGTERM. Registrations whose result depends on the order of clients are dropped. D12a (pre-join registrations never reach the follower) is a listed known finding.",
+        "property-based testing: proptest histories + fault (leader loss) with a reference-model oracle over the follower's state at the loss",
+        "DESIGN.md §5 C12",
+    ),
     "C13": (
         "wire",
         "exploration",
